@@ -191,8 +191,41 @@ def word_then_default(w, d):
 PROSE_A = "ab .,:()`0-"
 
 
+SELFTEST_ALPHA = "aZ 09" + chr(9) + chr(10) + chr(13) + chr(28) + chr(11) + "-_" + chr(127) + "@[`{"
+
+
+def engine_selftest(op, s):
+    """trusted-base check: the ASCII fast paths of lib/chfast.py agree with CPython (the symbolic result, realised under the path's
+    model, equals the CPython result on the realised input)"""
+    from lib.chutil import realize
+
+    s = fixlen(s)
+    if op == 0:
+        r = s.casefold()
+    elif op == 1:
+        r = s.lower()
+    elif op == 2:
+        r = s.upper()
+    elif op == 3:
+        r = s.isspace()
+    elif op == 4:
+        r = s.isdigit()
+    elif op == 5:
+        r = s.isdecimal()
+    else:
+        r = s.splitlines()
+    c = realize(s)
+    want = (c.casefold(), c.lower(), c.upper(), c.isspace(), c.isdigit(), c.isdecimal(), c.splitlines())[op]
+    return realize(r) == want
+
+
 def obligations(tier, seed):
     obs = []
+    for op, nm_ in enumerate(("casefold", "lower", "upper", "isspace", "isdigit", "isdecimal", "splitlines")):
+        obs.append(Ob(name="engine_selftest_%s" % nm_, params=[("s", "str")], pre=["len(s) <= 2", "all(c in H.SELFTEST_ALPHA for c in s)"],
+                      body="H.engine_selftest(%d, s)" % op, witness=("Z ",),
+                      bounds="trusted base: lib/chfast.py's %s on every string of length <= 2 over a representative ASCII alphabet (letters at the case boundaries, digits, every ASCII white-space / line-break character, punctuation next to the letter ranges) agrees with CPython" % nm_,
+                      timeout=100, path_timeout=50, funcs=["lib/chfast.py (engine shim)"]))
     n = 3 if tier == "quick" else 4
     pl = 2 if tier == "quick" else 3
     phr = range(len(PHRASES))
